@@ -358,7 +358,10 @@ def _op_robust(ctx, op, state):
         # robust = analytic core + numerical residual: agrees with the plain solver on the smooth part
         d = float(np.max(np.abs(v - _potential(core, state["pts0"], c) - state["results"]["rho1"]))) / scale
         ctx.probes.hit("robust-vs-plain-compared")
-        if d > 10 * LIN_FACTOR * ctx.spec["grid"]["tol"]:
+        # without split2 the robust solver hands exactly the smooth part to the same BVP solver: tight agreement.  With
+        # split2 most of it is solved analytically instead, so the two only agree to the plain solver's own accuracy.
+        bound = 10 * LIN_FACTOR * ctx.spec["grid"]["tol"] if not o.get("split2") else _acc_bound(ctx)
+        if d > bound:
             ctx.violate("robust-vs-plain", "robust", sig, f"robust(core+smooth) - core_analytic - plain(smooth) = {d:.3g}")
     ctx.log.add(ctx.step, "robust", sig, beh, bseed, hash_array(v))
 
